@@ -515,7 +515,7 @@ fn mixed_models(quick: bool) -> Vec<HistoryModel> {
         cfgs.push(WorldCfg { suite, providers: vec![Which::Ossl, Which::Awslc], ..Default::default() });
     }
     let mon = Monitors { decrypt: true, ..Default::default() };
-    vec![HistoryModel { cfgs, mon, n_parties: 4, depth_initial: if quick { 2 } else { 3 }, depth_gallery: 1, alphabet: Alphabet::Full, seeds: vec!["S0", "S1"], all_proposers: false }]
+    vec![HistoryModel { cfgs, mon, n_parties: 4, depth_initial: if quick { 2 } else { 3 }, depth_gallery: 1, alphabet: Alphabet::Full, seeds: vec!["S0", "S1"], all_proposers: false, max_deviations: 0 }]
 }
 
 pub fn meta(tier: &str) -> Meta {
